@@ -635,7 +635,7 @@ class CommitRun:
         self.commits = []
         self.ops = []
         self.ids = {}
-        if kind in ("worktree", "porcelain"):
+        if kind in ("worktree", "porcelain", "amend"):
             from dulwich.repo import Repo
             r = Repo.init(self.root)
             self.tree = r.object_store.add_object  # placeholder
@@ -670,7 +670,7 @@ class CommitRun:
 
     def actor(self, a):
         def body():
-            if self.kind in ("worktree", "porcelain"):
+            if self.kind in ("worktree", "porcelain", "amend"):
                 from dulwich.repo import Repo
                 r = Repo(self.root)
                 commit = lambda: r.get_worktree().commit(
@@ -682,6 +682,17 @@ class CommitRun:
                     commit = lambda: porcelain.commit(
                         r, message=b"by %d" % a, committer=b"a <a@b>", author=b"a <a@b>", commit_timestamp=10 + a,
                         commit_timezone=0, author_timestamp=10 + a, author_timezone=0, sign=False)
+                if self.kind == "amend":
+                    # actor 0 amends the tip (message taken from the commit it replaces), the others commit on top
+                    from dulwich import porcelain
+                    if a == 0:
+                        commit = lambda: porcelain.commit(
+                            r, amend=True, committer=b"a <a@b>", author=b"a <a@b>", commit_timestamp=20,
+                            commit_timezone=0, author_timestamp=20, author_timezone=0, sign=False)
+                    else:
+                        commit = lambda: porcelain.commit(
+                            r, message=b"by %d" % a, committer=b"a <a@b>", author=b"a <a@b>", commit_timestamp=10 + a,
+                            commit_timezone=0, author_timestamp=10 + a, author_timezone=0, sign=False)
                 store = r.object_store
             else:
                 r = self.mem
@@ -698,7 +709,10 @@ class CommitRun:
                 rec["new"] = self.cid(sha)
                 rec["old"] = self.cid(parents[0]) if parents else 0
                 rec["res"] = 1
-                self.commits.append({"id": rec["new"], "parent": rec["old"], "ok": True})
+                self.commits.append({"id": rec["new"], "parent": rec["old"], "ok": True, "msg": store[sha].message})
+                if self.kind == "amend" and a == 0:
+                    # the commit it replaced is the one whose message it carries; replacing it is the point of amend
+                    self.amended_msg = store[sha].message
             except BaseException as e:
                 rec["exc"] = True
                 rec["excname"] = type(e).__name__
@@ -706,7 +720,7 @@ class CommitRun:
             self.world.note("retop")
             rec["r"] = self.world.seq
             self.ops.append(rec)
-            if self.kind in ("worktree", "porcelain"):
+            if self.kind in ("worktree", "porcelain", "amend"):
                 r.close()
         return body
 
@@ -733,7 +747,7 @@ class CommitRun:
                 for name, orig in patched:
                     setattr(DictRefsContainer, name, orig)
         self.sched = s
-        if self.kind in ("worktree", "porcelain"):
+        if self.kind in ("worktree", "porcelain", "amend"):
             from dulwich.repo import Repo
             r = Repo(self.root)
             tip = r.refs[b"HEAD"]
@@ -762,7 +776,17 @@ class CommitRun:
 
     def trace(self, tid):
         ops = sorted(self.ops, key=lambda o: o["c"])
-        commits = [{"id": 1, "parent": 0, "ok": True}] + self.commits
+        commits = [{"id": 1, "parent": 0, "ok": True, "msg": b"c0"}] + self.commits
+        am = getattr(self, "amended_msg", None)
+        if am is not None:
+            for o in ops:
+                if o["a"] == 0 and not o["exc"]:
+                    # the amend is a swap from the commit it replaced to the new one
+                    rep = next((c for c in commits if c.get("msg") == am and c["id"] != o["new"]), None)
+                    o["old"] = rep["id"] if rep else 0
+                    if rep:
+                        rep["ok"] = False       # legitimately dropped from the history
+        commits = [{k: c[k] for k in ("id", "parent", "ok")} for c in commits]
         return {"tid": tid, "init": [1], "final": [self.tip], "hinit": 1, "hfinal": 1,
                 "ops": [dict({k: o[k] for k in ("k", "n", "old", "new", "res", "exc", "c", "r")}, via=0) for o in ops],
                 "commits": commits, "tip": self.tip}
@@ -1179,6 +1203,7 @@ def run(ctx):
                                          ("worktree", 2, True, ctx.pick(2, 3), ctx.pick(120, 6000)),
                                          ("worktree", 3, False, ctx.pick(1, 2), ctx.pick(120, 6000)),
                                          ("porcelain", 2, False, ctx.pick(1, 2), ctx.pick(150, 4000)),
+                                         ("amend", 2, False, ctx.pick(1, 2), ctx.pick(200, 4000)),
                                          ("porcelain", 2, True, ctx.pick(1, 2), ctx.pick(100, 4000)),
                                          ("memory", 2, False, 3, None), ("memory", 3, False, 2, ctx.pick(150, 5000))]:
         def run_once(prefix, kind=kind, n=n, packed=packed):
@@ -1192,7 +1217,7 @@ def run(ctx):
             ncommit += 1
             t = r.trace(tid)
             traces.append(t)
-            site = {"worktree": "dulwich/worktree.py:WorkTree.commit", "porcelain": "dulwich/porcelain:commit"}.get(kind, "dulwich/repo.py:MemoryRepo.do_commit")
+            site = {"worktree": "dulwich/worktree.py:WorkTree.commit", "porcelain": "dulwich/porcelain:commit", "amend": "dulwich/porcelain:commit(amend=True)"}.get(kind, "dulwich/repo.py:MemoryRepo.do_commit")
             meta[tid] = {"sig": f"{site}|LostCommit|actors={n} packed={packed}",
                          "desc": f"{n} concurrent commits ({kind}): {r.commits} tip={r.tip} results={[(o['res'], o.get('excname')) for o in r.ops]}",
                          "choices": s.choices(), "kind": kind}
